@@ -130,6 +130,28 @@ def conditions(tier):
                   f"as above with both pieces in ONE painted Pretext scaffold (re-joined), contig strands {cs}, piece strands {ps}"))
     q.append(("model_whole_FGFGF_trailing_subtexel", gen_model("m0_FGFGF", S_FGFGF, ((0,), [(0, 0, 0)]), tags=[()]), "m0_FGFGF", 600,
               "input F G F G F, one unpainted whole-scaffold piece with end rounding; trailing contigs may lie in the final partial texel; all strands symbolic"))
+    # sub-texel perturbation of a one-cut map: the two pieces neither abut nor sit on the grid exactly
+    tot3 = "l0_0 + g0_1 + l0_2"
+    BREG = {"c0": "b0 <= l0_0", "gap": "l0_0 < b0 <= l0_0 + g0_1", "c2": "b0 > l0_0 + g0_1"}
+    RREG = {"overlap": "a1 - b0 - 1 < 0", "abut": "a1 - b0 - 1 == 0", "hole": "a1 - b0 - 1 > 0"}
+    PERT = []
+    for ps in ((1, 1), (1, -1)):
+        for bk, bpre in BREG.items():
+            for rk, rpre in RREG.items():
+                n = f"pert_FGF_{bk}_{rk}_" + _sfx((), ps)
+                PERT.append((f"perturbed_one_cut_FGF_{bk}_{rk}_" + _sfx((), ps),
+                             gen_arbitrary(n, S_FGF, [(0, "S1"), (1, "S1")], sym_strands=False, pstrands=ps, tags=[("Painted",), ("Painted",)],
+                                           region=["a0 == 1", f"{tot3} - tf <= b1 <= {tot3} + tf", "-tf <= a1 - b0 - 1 <= tf", "b0 >= 2 * tf", "b1 - a1 + 1 >= 2 * tf", bpre, rpre]), n, 3000,
+                             f"input F G F (forward), a one-cut map PERTURBED by less than a texel: piece 0 = [1,b0] (b0 in {bk}), piece 1 = [a1, ~L] with |a1 - b0 - 1| <= floor(t) ({rk}), two painted groups, piece strands {ps}"))
+    SLOW = ("_c0_hole_", "_c2_hole_")       # these four regions need > 10 minutes each: thorough tier
+    for x in PERT:
+        if not any(k in x[0] for k in SLOW):
+            q.append((x[0], x[1], x[2], 600, x[4]))
+    # an overlapping piece list: a small piece inside the middle contig listed BEFORE a piece spanning all three contigs
+    n = "nested_FFF"
+    q.append(("small_piece_inside_middle_contig_then_spanning_piece_FFF", gen_arbitrary(n, [("S1", "FFF")], [(0, "S1"), (1, "S1")], sym_strands=False, pstrands=(1, 1),
+              region=["l0_0 < a0 and b0 <= l0_0 + l0_1", "a1 <= l0_0 and b1 > l0_0 + l0_1"]), n, 900,
+              "input F F F, piece 0 inside the middle contig, piece 1 spanning from the first into the third contig (the middle contig is a terminal row of one lookup and an interior row of the other)"))
     q.append(("qc_two_pieces", gen_qc(2), "qc_2", 300, "qc_sub_fragments on 2 ARBITRARY same-named pieces (unbounded coordinates): returns only if they tile an interval of the original length"))
     q.append(("qc_three_pieces", gen_qc(3), "qc_3", 900, "qc_sub_fragments on 3 arbitrary pieces"))
     src_q = HEAD + "".join(x[1] for x in q)
@@ -163,6 +185,7 @@ def conditions(tier):
     t.append(("duplicated_piece", gen_arbitrary("dup_FGF", S_FGF, [(0, "S1"), (1, "S1")], sym_strands=False,
                                                 region=["a1 == a0 and b1 == b0"]), "dup_FGF", 3000,
               "the same arbitrary piece listed twice (two Pretext scaffolds)"))
+    t += [x for x in PERT if any(k in x[0] for k in SLOW)]
     src_t = HEAD + "".join(x[1] for x in t)
     for (n, _, fn, to, bound) in t:
         out.append(Cond(n, src_t, fn, to, bound, tier="thorough", replay="replay_model", encodes=ENC))
